@@ -8,7 +8,8 @@ CONSTANT Scenario
 
 MCKeys == {"#s", "@t", "n"}
 MCVals == {"x", "y"}
-MCIDOrder == CASE Scenario = 1 -> <<"P0", "P1", "P2", "P3", "W1", "W2", "A1", "R1">>
+\* P50: a point in a second namespace that sorts before the first while its value is larger (see MCStaticWorld)
+MCIDOrder == CASE Scenario = 1 -> <<"P50", "P0", "P1", "P2", "P3", "W1", "W2", "A1", "R1">>
                [] Scenario = 2 -> <<"P0", "P1", "P4", "W1", "R1", "C1">>
                [] Scenario = 3 -> <<"P0", "P1", "P2", "P3", "P4", "W1", "W2", "W3", "A1", "A2", "R1", "R2", "C1">>
                [] Scenario = 7 -> <<"P0", "P1", "P2", "P3", "P4", "W1", "W2", "W3", "A1", "A2", "R1">>
@@ -28,6 +29,7 @@ Base1 == World([P0 |-> Pt(0, T("x", "-", "x")), P1 |-> Pt(1, NT), P2 |-> Pt(2, N
                 A1 |-> Ar(<< <<"W2">> >>, T("y", "-", "-")),
                 R1 |-> Re(<<"A1", "P0">>, T("-", "x", "-"))])
 Cand1 == { C("P3", Pt(3, T("x", "-", "-"))),
+           C("P50", Pt(4, T("x", "-", "-"))),      \* an overlay-only match in another namespace: merge order
            C("P0", Pt(0, T("-", "-", "y"))),
            C("A1", Ar(<< <<"W2">> >>, T("-", "x", "-"))) }
 
